@@ -54,6 +54,8 @@ macro_rules! unlink_harness {
         #[kani::stub(alloc::fmt::format, crate::kani_support::stubs::fmt_format)]
         #[kani::stub(core::fmt::write, crate::kani_support::stubs::fmt_write)]
         #[kani::stub(<core::io::CustomOwner as core::ops::Drop>::drop, crate::kani_support::stubs::custom_owner_drop)]
+        #[kani::stub(<std::io::Error as core::fmt::Display>::fmt, crate::kani_support::stubs::io_error_display)]
+        #[kani::stub(<std::io::Error as core::fmt::Debug>::fmt, crate::kani_support::stubs::io_error_display)]
         #[kani::stub(std::fs::remove_file, crate::kani_support::stubs::remove_file)]
         fn $name() {
             unlink_unit($two);
